@@ -317,4 +317,186 @@ theorem ans_read_init_agrees_x2 (a : AnsDecoder) (pre : List Nat) (b2 b1 top : N
   exact ansFin_agrees _ _ _ _ (by simp) (by omega) hm
 
 
+/-! ### `DecodeVarintUnsigned` as a whole (core/varint_decoding.h): byte source with a position, recursion with fuel -/
+
+set_option maxRecDepth 16384 in
+theorem nat_and_128 : ∀ x : Fin 256, x.val &&& 128 = if x.val ≥ 128 then 128 else 0 := by decide
+
+theorem cAnd32_128 (x : Int) (h0 : 0 ≤ x) (h1 : x < 256) : cAnd 32 x 128 = if x ≥ 128 then 128 else 0 := by
+  unfold cAnd pat
+  have e1 : ((128:Int) % 2^32).toNat = 128 := by decide
+  have e2 : (x % 2^32).toNat = x.toNat := by congr 1; omega
+  rw [e1, e2]
+  have := nat_and_128 ⟨x.toNat, by omega⟩
+  simp only at this
+  rw [this]
+  split <;> split <;> omega
+
+theorem cOr_nat (w : Nat) (A B : Nat) (hA : A < 2^w) (hB : B < 2^w) : cOr w (A : Int) (B : Int) = ((A ||| B : Nat) : Int) := by
+  unfold cOr pat
+  have e1 : ((A : Int) % 2^w).toNat = A := by
+    rw [Int.emod_eq_of_lt (by omega) (by exact_mod_cast hA)]; simp
+  have e2 : ((B : Int) % 2^w).toNat = B := by
+    rw [Int.emod_eq_of_lt (by omega) (by exact_mod_cast hB)]; simp
+  rw [e1, e2]
+
+theorem DecodeVarintUnsigned_u32_aux (budget : Nat) : ∀ (fuel : Nat) (d : Nat) (v0 : Int) (bs : List Nat),
+    (∀ b ∈ bs, b < 256) → 1 ≤ d → d + budget = 6 → budget + 1 ≤ fuel →
+    match decVarintAux 32 budget bs with
+    | none => ∃ v' r', DecodeVarintUnsigned_u32 fuel d v0 (bs.map Int.ofNat) = some (false, v', r')
+    | some (v, rest) => DecodeVarintUnsigned_u32 fuel d v0 (bs.map Int.ofNat) = some (true, (v : Int), rest.map Int.ofNat) := by
+  induction budget with
+  | zero =>
+    intro fuel d v0 bs hb hd hsum hf
+    obtain ⟨f, rfl⟩ : ∃ f, fuel = f + 1 := ⟨fuel - 1, by omega⟩
+    have hd6 : d = 6 := by omega
+    subst hd6
+    have hm : decVarintAux 32 0 bs = none := by cases bs <;> rfl
+    rw [hm]
+    unfold DecodeVarintUnsigned_u32
+    c_const
+    exact ⟨_, _, rfl⟩
+  | succ b ih =>
+    intro fuel d v0 bs hb hd hsum hf
+    obtain ⟨f, rfl⟩ : ∃ f, fuel = f + 1 := ⟨fuel - 1, by omega⟩
+    unfold DecodeVarintUnsigned_u32
+    c_const
+    have hgt : ¬ ((d : Int) > 5) := by omega
+    simp only [hgt, if_false]
+
+    cases bs with
+    | nil => simp only [decVarintAux, List.map_nil]; exact ⟨_, _, rfl⟩
+    | cons byte rest =>
+      have hbyte : byte < 256 := hb byte (by simp)
+      have hrest : ∀ b ∈ rest, b < 256 := fun b h => hb b (by simp [h])
+      have hbi : cAnd 32 (Int.ofNat byte) 128 = if (Int.ofNat byte) ≥ 128 then 128 else 0 :=
+        cAnd32_128 _ (by simp) (by simp; omega)
+      simp only [List.map_cons, hbi]
+      by_cases h128 : byte ≥ 128
+      · have hI : (Int.ofNat byte) ≥ 128 := by simp; omega
+        have hne : wrapI32 (if Int.ofNat byte ≥ 128 then 128 else 0) ≠ 0 := by rw [if_pos hI]; decide
+        rw [if_pos hne]
+        have hm : decVarintAux 32 (b + 1) (byte :: rest) =
+            match decVarintAux 32 b rest with
+            | none => none
+            | some (v, rest') => some (((v * 128) % 2^32) ||| (byte % 128), rest') := by
+          simp [decVarintAux, h128]
+          rfl
+        rw [hm]
+        have hih := ih f (d + 1) v0 rest hrest (by omega) (by omega) (by omega)
+        have hd1 : ((d : Int) + 1) = ((d + 1 : Nat) : Int) := by omega
+        rw [hd1]
+        cases hrec : decVarintAux 32 b rest with
+        | none =>
+          rw [hrec] at hih
+          obtain ⟨v', r', hg⟩ := hih
+          rw [hg]
+          exact ⟨_, _, rfl⟩
+        | some pr =>
+          obtain ⟨v, rest'⟩ := pr
+          rw [hrec] at hih
+          dsimp only at hih ⊢
+          rw [hih]
+          have a1 : cAnd 32 (Int.ofNat byte) 127 = ((byte % 128 : Nat) : Int) := by rw [cAnd32_127]; simp
+          have a2 : wrapU32 (wrapI32 ((byte % 128 : Nat) : Int)) = ((byte % 128 : Nat) : Int) := by
+            rw [wrapI32_id _ (by omega) (by omega)]; exact wrapU32_id _ (by omega) (by omega)
+          have a3 : wrapU32 ((v : Int) * 128) = (((v * 128) % 2^32 : Nat) : Int) := by unfold wrapU32; omega
+          dsimp only
+          rw [a1, a2, a3, cOr_nat 32 _ _ (Nat.mod_lt _ (by decide)) (by omega)]
+          simp
+      · have hI : ¬ ((Int.ofNat byte) ≥ 128) := by simp; omega
+        have hne : ¬ (wrapI32 (if Int.ofNat byte ≥ 128 then 128 else 0) ≠ 0) := by rw [if_neg hI]; decide
+        rw [if_neg hne]
+        have hm : decVarintAux 32 (b + 1) (byte :: rest) = some (byte, rest) := by
+          simp [decVarintAux, h128]
+        rw [hm]
+        rfl
+
+theorem DecodeVarintUnsigned_u64_aux (budget : Nat) : ∀ (fuel : Nat) (d : Nat) (v0 : Int) (bs : List Nat),
+    (∀ b ∈ bs, b < 256) → 1 ≤ d → d + budget = 11 → budget + 1 ≤ fuel →
+    match decVarintAux 64 budget bs with
+    | none => ∃ v' r', DecodeVarintUnsigned_u64 fuel d v0 (bs.map Int.ofNat) = some (false, v', r')
+    | some (v, rest) => DecodeVarintUnsigned_u64 fuel d v0 (bs.map Int.ofNat) = some (true, (v : Int), rest.map Int.ofNat) := by
+  induction budget with
+  | zero =>
+    intro fuel d v0 bs hb hd hsum hf
+    obtain ⟨f, rfl⟩ : ∃ f, fuel = f + 1 := ⟨fuel - 1, by omega⟩
+    have hd11 : d = 11 := by omega
+    subst hd11
+    have hm : decVarintAux 64 0 bs = none := by cases bs <;> rfl
+    rw [hm]
+    unfold DecodeVarintUnsigned_u64
+    c_const
+    exact ⟨_, _, rfl⟩
+  | succ b ih =>
+    intro fuel d v0 bs hb hd hsum hf
+    obtain ⟨f, rfl⟩ : ∃ f, fuel = f + 1 := ⟨fuel - 1, by omega⟩
+    unfold DecodeVarintUnsigned_u64
+    c_const
+    have hgt : ¬ ((d : Int) > 10) := by omega
+    simp only [hgt, if_false]
+
+    cases bs with
+    | nil => simp only [decVarintAux, List.map_nil]; exact ⟨_, _, rfl⟩
+    | cons byte rest =>
+      have hbyte : byte < 256 := hb byte (by simp)
+      have hrest : ∀ b ∈ rest, b < 256 := fun b h => hb b (by simp [h])
+      have hbi : cAnd 32 (Int.ofNat byte) 128 = if (Int.ofNat byte) ≥ 128 then 128 else 0 :=
+        cAnd32_128 _ (by simp) (by simp; omega)
+      simp only [List.map_cons, hbi]
+      by_cases h128 : byte ≥ 128
+      · have hI : (Int.ofNat byte) ≥ 128 := by simp; omega
+        have hne : wrapI32 (if Int.ofNat byte ≥ 128 then 128 else 0) ≠ 0 := by rw [if_pos hI]; decide
+        rw [if_pos hne]
+        have hm : decVarintAux 64 (b + 1) (byte :: rest) =
+            match decVarintAux 64 b rest with
+            | none => none
+            | some (v, rest') => some (((v * 128) % 2^64) ||| (byte % 128), rest') := by
+          simp [decVarintAux, h128]
+          rfl
+        rw [hm]
+        have hih := ih f (d + 1) v0 rest hrest (by omega) (by omega) (by omega)
+        have hd1 : ((d : Int) + 1) = ((d + 1 : Nat) : Int) := by omega
+        rw [hd1]
+        cases hrec : decVarintAux 64 b rest with
+        | none =>
+          rw [hrec] at hih
+          obtain ⟨v', r', hg⟩ := hih
+          rw [hg]
+          exact ⟨_, _, rfl⟩
+        | some pr =>
+          obtain ⟨v, rest'⟩ := pr
+          rw [hrec] at hih
+          dsimp only at hih ⊢
+          rw [hih]
+          have a1 : cAnd 32 (Int.ofNat byte) 127 = ((byte % 128 : Nat) : Int) := by rw [cAnd32_127]; simp
+          have a2 : wrapU64 (wrapI32 ((byte % 128 : Nat) : Int)) = ((byte % 128 : Nat) : Int) := by
+            rw [wrapI32_id _ (by omega) (by omega)]; exact wrapU64_id _ (by omega) (by omega)
+          have a3 : wrapU64 ((v : Int) * 128) = (((v * 128) % 2^64 : Nat) : Int) := by unfold wrapU64; omega
+          dsimp only
+          rw [a1, a2, a3, cOr_nat 64 _ _ (Nat.mod_lt _ (by decide)) (by omega)]
+          simp
+      · have hI : ¬ ((Int.ofNat byte) ≥ 128) := by simp; omega
+        have hne : ¬ (wrapI32 (if Int.ofNat byte ≥ 128 then 128 else 0) ≠ 0) := by rw [if_neg hI]; decide
+        rw [if_neg hne]
+        have hm : decVarintAux 64 (b + 1) (byte :: rest) = some (byte, rest) := by
+          simp [decVarintAux, h128]
+        rw [hm]
+        rfl
+
+/-- `DecodeVarintUnsigned<uint32_t>(1, &v, buffer)` (recursion unrolled with fuel 6 = `max_depth + 1`) is the model's
+    `decVarint 32`: it fails exactly when the model does, otherwise it stores the model's value and leaves the model's rest -/
+theorem DecodeVarintUnsigned_u32_eq_model (v0 : Int) (bs : List Nat) (hb : ∀ b ∈ bs, b < 256) :
+    match decVarint 32 bs with
+    | none => ∃ v' r', DecodeVarintUnsigned_u32 6 1 v0 (bs.map Int.ofNat) = some (false, v', r')
+    | some (v, rest) => DecodeVarintUnsigned_u32 6 1 v0 (bs.map Int.ofNat) = some (true, (v : Int), rest.map Int.ofNat) :=
+  DecodeVarintUnsigned_u32_aux 5 6 1 v0 bs hb (by omega) (by omega) (by omega)
+
+theorem DecodeVarintUnsigned_u64_eq_model (v0 : Int) (bs : List Nat) (hb : ∀ b ∈ bs, b < 256) :
+    match decVarint 64 bs with
+    | none => ∃ v' r', DecodeVarintUnsigned_u64 11 1 v0 (bs.map Int.ofNat) = some (false, v', r')
+    | some (v, rest) => DecodeVarintUnsigned_u64 11 1 v0 (bs.map Int.ofNat) = some (true, (v : Int), rest.map Int.ofNat) :=
+  DecodeVarintUnsigned_u64_aux 10 11 1 v0 bs hb (by omega) (by omega) (by omega)
+
+
 end Draco.Generated
